@@ -724,3 +724,221 @@ Definition check_vd (seed : N) (regions : list (N * N)) (ds : list desc) (dirty0
       obs_list_heqb (o0 :: os) exp && windows_ok (v_mem st') windows && dirty_ok (v_dirty st') marked universe
   | _ => res_heqb r exp_init
   end.
+
+(* ================================================================== async variants (feature async-io)
+   src/transport/mod.rs Reader::async_read_to_at, src/transport/virtiofs/mod.rs and fusedev/mod.rs `mod async_io`.
+   Written from the code of the async methods; Proofs/TransportAsync.v shows each is the state transformer of its
+   synchronous counterpart ([desugar]) except where the code really differs. *)
+
+(* Reader::async_read_to_at: prepare_io_buf(count) (same truncation as allocate_file_volatile_slice); if empty Ok(0);
+   the file takes a prefix; mark_used(cnt) *)
+Definition rd_async_read_to_at (count : N) (sink : option N) (m : mem) (b : iobuf) : res * iobuf :=
+  match take_segs count (segs b) with
+  | [] => (ROk 0 [], b)
+  | bufs =>
+      match sink with
+      | None => (RErr EFile, b)
+      | Some k =>
+          let data := copy_out m bufs (N.min k (seg_total bufs)) in
+          match mark_used (lenN data) b with
+          | None => (RErr EOverflow, b)
+          | Some b' => (ROk (lenN data) data, b')
+          end
+      end
+  end.
+
+(* VirtioFsWriter::async_write2 / async_write3: check_available_space(sum) then self.write() for EVERY buffer *)
+Fixpoint vw_write_seq (datas : list (list N)) (acc : N) (m : mem) (d : dirty) (b : iobuf)
+  : res * mem * dirty * iobuf :=
+  match datas with
+  | [] => (ROk acc [], m, d, b)
+  | x :: r => match vw_write x m d b with
+              | (ROk n _, m', d', b') => vw_write_seq r (acc + n) m' d' b'
+              | other => other
+              end
+  end.
+Definition vw_async_writes (datas : list (list N)) (m : mem) (d : dirty) (b : iobuf) :=
+  if avail b <? fold_left (fun a x => a + lenN x) datas 0 then (RErr ENoSpace, m, d, b)
+  else vw_write_seq datas 0 m d b.
+
+(* VirtioFsWriter::async_write_from_at: check_available_space(count); prepare_mut_io_buf(count); if empty Ok(0);
+   the file fills a prefix and reports cnt; mark_dirty(cnt); mark_used(cnt) *)
+Definition vw_async_write_from_at (count : N) (src : option (list N)) (m : mem) (d : dirty) (b : iobuf)
+  : res * mem * dirty * iobuf :=
+  if avail b <? count then (RErr ENoSpace, m, d, b)
+  else match take_segs count (segs b) with
+       | [] => (ROk 0 [], m, d, b)
+       | bufs =>
+           match src with
+           | None => (RErr EFile, m, d, b)
+           | Some data =>
+               let '(m', cnt) := copy_in m bufs data in
+               let d' := mark_dirty cnt (segs b) d in
+               match mark_used cnt b with
+               | None => (RErr EOverflow, m', d', b)
+               | Some b' => (ROk cnt [], m', d', b')
+               end
+           end
+       end.
+
+Inductive avop :=
+| ASync (op : vop)                                              (* any synchronous operation *)
+| ARReadToAt (i : nat) (count : N) (sink : option N)            (* Reader::async_read_to_at *)
+| AWrite (i : nat) (data : list N)                              (* async_write: `self.write(data)` *)
+| AWrite2 (i : nat) (d1 d2 : list N)
+| AWrite3 (i : nat) (d1 d2 d3 : list N)
+| AWriteAll (i : nat) (data : list N)                           (* async_write_all: `self.write_all(buf)`; value reported = |buf| *)
+| AWriteFromAt (i : nat) (count : N) (src : option (list N))
+| ACommit (i : nat).                                            (* async_commit: `self.commit(other)` *)
+
+Definition avstep (a : avop) (st : vstate) : obs * vstate :=
+  let m := v_mem st in let d := v_dirty st in
+  match a with
+  | ASync op => vstep op st
+  | ARReadToAt i count sink =>
+      match nth_error (v_rd st) i with
+      | None => (obs_bad, st)
+      | Some b => let '(r, b') := rd_async_read_to_at count sink m b in
+                  (obs1 r b', mkv m d (set_nth i b' (v_rd st)) (v_wr st))
+      end
+  | AWrite i data => vstep (WWrite i data) st
+  | AWriteAll i data => vstep (WWrite i data) st
+  | AWrite2 i d1 d2 =>
+      match nth_error (v_wr st) i with
+      | None => (obs_bad, st)
+      | Some b => let '(r, m', d', b') := vw_async_writes [d1; d2] m d b in
+                  (obs1 r b', mkv m' d' (v_rd st) (set_nth i b' (v_wr st)))
+      end
+  | AWrite3 i d1 d2 d3 =>
+      match nth_error (v_wr st) i with
+      | None => (obs_bad, st)
+      | Some b => let '(r, m', d', b') := vw_async_writes [d1; d2; d3] m d b in
+                  (obs1 r b', mkv m' d' (v_rd st) (set_nth i b' (v_wr st)))
+      end
+  | AWriteFromAt i count src =>
+      match nth_error (v_wr st) i with
+      | None => (obs_bad, st)
+      | Some b => let '(r, m', d', b') := vw_async_write_from_at count src m d b in
+                  (obs1 r b', mkv m' d' (v_rd st) (set_nth i b' (v_wr st)))
+      end
+  | ACommit i => vstep (WCommit i) st
+  end.
+
+(* the synchronous operation with the same effect *)
+Definition desugar (a : avop) : vop :=
+  match a with
+  | ASync op => op
+  | ARReadToAt i count sink => RReadTo i count sink
+  | AWrite i data | AWriteAll i data => WWrite i data
+  | AWrite2 i d1 d2 => WWriteV i [d1; d2]
+  | AWrite3 i d1 d2 d3 => WWriteV i [d1; d2; d3]
+  | AWriteFromAt i count src => WWriteFrom i count src
+  | ACommit i => WCommit i
+  end.
+
+Fixpoint avrun (ops : list avop) (st : vstate) : list obs * vstate :=
+  match ops with
+  | [] => ([], st)
+  | op :: r => let '(o, st') := avstep op st in
+               let '(os, st'') := avrun r st' in (o :: os, st'')
+  end.
+
+(* ---- FuseDevWriter async variants.  [at_len] says where async_write_from_at puts the file data: true = behind
+   the bytes already buffered (buf + len, like write_from_at), false = at the start of the buffer; the value for
+   the current source is read by translator/async_transport.py (Gen/AsyncTransport.v). *)
+Inductive afop :=
+| FSync (op : fop)
+| FAWrite (i : nat) (data : list N)                  (* buffered: extend; unbuffered: pwrite(fd, data, 0) = one packet *)
+| FAWrite2 (i : nat) (d1 d2 : list N)                (* buffered: extend twice; unbuffered: writev([d1, d2]) *)
+| FAWrite3 (i : nat) (d1 d2 d3 : list N)
+| FAWriteAll (i : nat) (data : list N)               (* while !buf.is_empty() { async_write(buf) }: nothing at all for an empty buffer *)
+| FAWriteFromAt (i : nat) (count : N) (src : option (list N))
+| FACommit (i : nat) (other : option nat).
+
+Definition fw_async_write_from_at (at_len : bool) (count : N) (src : option (list N)) (m : mem) (w : fdw)
+  : res * mem * fdw * list (list N) :=
+  match f_check w count with
+  | Some r => (r, m, w, [])
+  | None =>
+      match src with
+      | None => (RErr EFile, m, w, [])
+      | Some data =>
+          let got := firstn (N.to_nat count) data in
+          let cnt := lenN got in
+          let dst := if at_len then f_base w + f_len w else f_base w in      (* FileVolatileBuf::from_raw_ptr(<dst>, 0, count) *)
+          let m' := write_list m dst got in
+          let w' := mkfdw (f_buffered w) (f_base w) (f_len w + cnt) (f_cap w) in
+          if f_buffered w then (ROk cnt [], m', w', [])
+          else (ROk cnt [], m', w', [read_range m' (f_base w) cnt])          (* pwrite(fd, &self.buf[..cnt], 0) *)
+      end
+  end.
+
+Definition afstep (at_len : bool) (a : afop) (st : fstate) : obs * fstate :=
+  let m := f_mem st in
+  match a with
+  | FSync op => fstep op st
+  | FAWrite i data => fstep (FWrite i data) st
+  | FAWrite2 i d1 d2 => fstep (FWriteV i [d1; d2]) st
+  | FAWrite3 i d1 d2 d3 => fstep (FWriteV i [d1; d2; d3]) st
+  | FAWriteAll i data =>
+      match data with
+      | [] => match nth_error (f_ws st) i with
+              | None => (obs_bad, st)
+              | Some w => (fobs (ROk 0 []) w, st)
+              end
+      | _ => fstep (FWrite i data) st
+      end
+  | FAWriteFromAt i count src =>
+      match nth_error (f_ws st) i with
+      | None => (obs_bad, st)
+      | Some w => let '(r, m', w', ps) := fw_async_write_from_at at_len count src m w in
+                  (fobs r w', mkf m' (set_nth i w' (f_ws st)) (f_pkts st ++ ps))
+      end
+  | FACommit i other => fstep (FCommit i other) st
+  end.
+
+Definition fdesugar (a : afop) : fop :=
+  match a with
+  | FSync op => op
+  | FAWrite i data | FAWriteAll i data => FWrite i data
+  | FAWrite2 i d1 d2 => FWriteV i [d1; d2]
+  | FAWrite3 i d1 d2 d3 => FWriteV i [d1; d2; d3]
+  | FAWriteFromAt i count src => FWriteFrom i count src
+  | FACommit i other => FCommit i other
+  end.
+
+Fixpoint afrun (at_len : bool) (ops : list afop) (st : fstate) : list obs * fstate :=
+  match ops with
+  | [] => ([], st)
+  | op :: r => let '(o, st') := afstep at_len op st in
+               let '(os, st'') := afrun at_len r st' in (o :: os, st'')
+  end.
+
+(* case checkers with async operations *)
+Definition check_avd (seed : N) (regions : list (N * N)) (ds : list desc) (dirty0 : list N) (ops : list avop)
+           (exp_init : hres) (exp : list hobs) (windows : list (N * N * N))
+           (marked universe : list N) : bool :=
+  let '(r, st0) := v_init seed regions ds in
+  let st := mkv (v_mem st0) (dirty_of dirty0) (v_rd st0) (v_wr st0) in
+  match r with
+  | ROk _ _ =>
+      res_heqb r exp_init &&
+      let o0 := match v_rd st, v_wr st with
+                | rd :: _, wr :: _ => mkobs (ROk 0 []) (avail rd) (consumed rd) (avail wr) (consumed wr)
+                | _, _ => obs_bad
+                end in
+      let '(os, st') := avrun ops st in
+      obs_list_heqb (o0 :: os) exp && windows_ok (v_mem st') windows && dirty_ok (v_dirty st') marked universe
+  | _ => res_heqb r exp_init
+  end.
+Definition check_afr (seed base cap : N) (ops : list avop) (exp : list hobs) (windows : list (N * N * N)) : bool :=
+  let b := mkio [mkseg base cap] 0 in
+  let st := mkv (mem_init seed) dirty_none [b] [] in
+  let '(os, st') := avrun ops st in
+  obs_list_heqb (mkobs (ROk 0 []) (avail b) 0 0 0 :: os) exp && windows_ok (v_mem st') windows.
+Definition check_af (at_len : bool) (seed base cap : N) (ops : list afop) (exp : list hobs) (pkts : list (N * N))
+           (windows : list (N * N * N)) : bool :=
+  let w := mkfdw false base 0 cap in
+  let st := mkf (mem_init seed) [w] [] in
+  let '(os, st') := afrun at_len ops st in
+  obs_list_heqb (fobs (ROk 0 []) w :: os) exp && pkts_heqb (f_pkts st') pkts && windows_ok (f_mem st') windows.
